@@ -8,9 +8,11 @@ import (
 	"os"
 
 	"github.com/ajitpratap0/GoSQLX/pkg/gosqlx"
+	"github.com/ajitpratap0/GoSQLX/pkg/sql/ast"
 	"github.com/ajitpratap0/GoSQLX/pkg/sql/keywords"
 	"github.com/ajitpratap0/GoSQLX/pkg/sql/parser"
 
+	clicmd "github.com/ajitpratap0/GoSQLX/cmd/gosqlx/cmd"
 	"verif/internal/project"
 )
 
@@ -38,6 +40,11 @@ func main() {
 		fmt.Println("TREE ", project.String(tree.Statements))
 		out := tree.SQL()
 		fmt.Println("OUT  ", out)
+		fmt.Printf("FMT   %q\n", tree.Format(ast.ReadableStyle()))
+		{
+			o, err := clicmd.NewSQLFormatter(clicmd.FormatterOptions{Indent: "  ", UppercaseKw: true}).Format(tree)
+			fmt.Printf("CLI   %q %v\n", o, err)
+		}
 		if t2, err := gosqlx.Parse(out); err != nil {
 			fmt.Println("RT   rejected:", firstLine(err.Error()))
 		} else if project.String(t2.Statements) != project.String(tree.Statements) {
